@@ -6,6 +6,8 @@ use crate::{
 use crate::parser::expression::{parse_call_like, parse_expression};
 
 pub fn tokenize_inline_content(content: &str) -> Result<Vec<Node>, CompilerError> {
+    // (the content of `{ }` is tokenized in turn)
+    let _nesting = crate::parser::NestingGuard::enter()?;
     let mut nodes = Vec::new();
     let mut text = String::new();
     let mut chars = content.char_indices().peekable();
